@@ -830,6 +830,11 @@ class MasterSim(object):
             if cands:
                 rack = cands[rack_idx % len(cands)]
                 self.count('reparent_aimed')
+        if rack_idx == 8:
+            # an admin's typo: update_server_parent does not validate the
+            # bucket, the record now names a rack nobody ever defined
+            rack = 'rack:undefined'
+            self.count('reparent_to_undefined_rack')
         masterapi.update_server_parent(self.admin, name, rack)
         self.parent_of[name] = rack
 
